@@ -461,9 +461,6 @@ def _passthrough(fn):
     return wrapper
 
 
-def _unused():
-    return None
-
 
 def execute(einx, d, state=None):
     """Execute descriptor d (incl. adapters, factories) -> raw result or raises."""
